@@ -2,6 +2,8 @@
 C12 - the Kaiser window delivers the requested side-lobe suppression, measured
 through the real pipeline (SpectrumAnalyzer.compute_single_bin).
 
+Both analysis paths are exercised: compute_single_bin per offset, and compute() with a
+user-supplied scheduler that puts every offset into one plan.
 Single spectral line: channels cos and sin analysed as a pair with K=1, order -1:
 |X_c + i X_s|^2 = XX + YY + 2 Im(XY)  (XY = X conj(Y)) is the response to
 e^{+i w0 n}; demanded R(f0+d) <= 10^-((P-1)/10) R(f0) for every offset |d| >= m =
@@ -32,17 +34,12 @@ PS = tuple(range(40, 201, 20))
 
 def shards(tier, seed):
     Ls = list(range(64, 257, 8)) if tier == "quick" else list(range(64, 257)) + [512, 1024, 4096]
-    out = []
-    for P in PS:
-        for L in Ls:
-            out.append({"P": P, "L": L})
-    out.sort(key=lambda s: -s["L"])
-    # pack small ones together
+    Ls.sort(reverse=True)
     packed, cur, w = [], [], 0
-    for s in out:
-        cur.append(s)
-        w += s["L"]
-        if w >= 1024:
+    for L in Ls:
+        cur += [{"P": P, "L": L} for P in PS]   # ascending P for one L inside one process
+        w += L
+        if w >= 500:
             packed.append({"items": cur})
             cur, w = [], 0
     if cur:
@@ -103,6 +100,35 @@ def _one(P, L, only=None):
 
         R0 = resp(b0)
         R0r = resp1(b0)
+        # the same offsets through the full analysis path (compute() -> _lpsd_core): a user-supplied scheduler puts
+        # every analysis offset into one plan with this L and a single segment
+        offs_all = []
+        d_ = m
+        while b0 + d_ <= L / 2 or b0 - d_ >= 0:
+            for sg in (1, -1):
+                bb = b0 + sg * d_
+                if 0 <= bb <= L / 2:
+                    offs_all.append(bb)
+            d_ += 0.25
+        fb = np.array([b0] + sorted(offs_all)) * fs / L
+
+        def plan_fn(**kw):
+            nfp = fb.size
+            return {"f": fb.copy(), "r": np.full(nfp, fs / L), "b": fb * L / fs, "L": np.full(nfp, L), "K": np.ones(nfp, dtype=int),
+                    "navg": np.ones(nfp, dtype=int), "D": [np.zeros(1, dtype=int) for _ in range(nfp)], "O": np.zeros(nfp), "nf": nfp}
+
+        full = ana.make_analyzer(np.stack([xc, xs]), fs, win="kaiser", psll=float(P), order=-1, olap=0.0, backend="numba",
+                                 scheduler=plan_fn).compute()._data
+        Rf = full["XX"] + full["YY"] + 2.0 * np.imag(full["XY"])
+        ib0 = int(np.argmin(np.abs(fb - b0 * fs / L)))
+        ratios = np.delete(Rf, ib0) / Rf[ib0]
+        res["evals"] += ratios.size
+        worst = float(np.max(ratios))
+        res["margin"] = min(res["margin"], 10 * np.log10(thr / max(worst, 1e-300)))
+        if not (worst <= thr):
+            jb = int(np.argmax(ratios))
+            key = f"line-fullpath/P={P}"
+            res["failures"].append(fw.fail(key, f"{key}: L={L} f0={b0:.4f} bins phi={phi}: full analysis path: response at {np.delete(fb, ib0)[jb] * L / fs - b0:+.2f} bins is {10 * np.log10(max(worst, 1e-300)):.2f} dB, required <= -{P - 1} dB", {"P": P, "L": L, "only": [b0, phi]}))
         offs = []
         d = m
         while b0 + d <= L / 2 or b0 - d >= 0:
